@@ -64,7 +64,7 @@ type sysOpts struct {
 	PropDefault bool `json:"propDefault,omitempty"` // propagation policy not set by the caller (the library defaults it to Background)
 }
 
-// cancel: "" none | "before-sync" | "wait:<n>:<j>" (during the n-th wait group after j status deliveries) | "mut:<k>" (while mutating request k is in flight)
+// cancel: "" none | "pre" (the context is cancelled before Run is called) | "before-sync" | "wait:<n>:<j>" (during the n-th wait group after j status deliveries) | "mut:<k>" (while mutating request k is in flight)
 type sysRun struct {
 	Kind        string            `json:"kind"` // apply | destroy
 	Objs        []sysObj          `json:"objs"`
@@ -730,6 +730,11 @@ func runOne(c *fakecluster.Cluster, run sysRun) (out runOut) {
 		prop = "" // left to the library's default, which is Background
 	}
 
+	if run.Cancel == "pre" {
+		// the caller's context is already cancelled when Run is called
+		cancelCalled.Store(true)
+		cancel()
+	}
 	var swUsed watcher.StatusWatcher = sw
 	if run.Real {
 		swUsed = watcher.NewDefaultStatusWatcher(dyn, mapper)
